@@ -2,5 +2,3 @@ pub mod arena;
 pub mod comp;
 pub mod util;
 pub mod s4;
-pub mod grid;
-pub mod wide;
